@@ -41,7 +41,6 @@ MANIFEST = {
 FINDING_LITERAL = "C02-literal-pyeq"
 FINDING_DICTKEY = "C02-dict-key-unchecked"
 FINDING_SETELEM = "C02-set-element-becomes-unhashable"
-FINDING_OPTENUM = "C02-optional-enum-declaration-order"
 FINDING_ENUMRETRY = "C02-enum-unhashable-no-retry"
 
 
@@ -223,7 +222,7 @@ def enc(x, depth=0, sort_sets=True):
     if x is None or isinstance(x, bool):
         return x
     if isinstance(x, int):
-        if abs(x) >= 10 ** 300:
+        if abs(x) >= 10 ** 400:
             raise Unencodable("huge int")
         return x
     if isinstance(x, float):
@@ -414,7 +413,7 @@ def build_tables(*values):
         ytab[s], atab[s] = y, a
         try:
             itab[s] = int(s)
-            if abs(itab[s]) >= 10 ** 300:
+            if abs(itab[s]) >= 10 ** 400:
                 raise Unencodable("huge int key")
         except ValueError:
             itab[s] = None
@@ -427,7 +426,7 @@ def build_tables(*values):
             try:
                 btab[i] = repr(float(i))
             except OverflowError:
-                raise Unencodable("int too large for float")
+                btab[i] = None                  # the model rejects: int beyond the float range
     return {"yaml": [[s, r] for s, r in ytab.items()], "any": [[s, r] for s, r in atab.items()],
             "intof": [[s, r] for s, r in itab.items()], "bigflt": [[i, r] for i, r in btab.items()]}
 
@@ -438,11 +437,6 @@ _PARSERS: dict = {}
 
 class DeclareError(Exception):
     """add_argument(type=...) raised"""
-
-
-def is_none_enum_union(desc):
-    """top-level Union[None, <Enum>] written in this order: class of FINDING_OPTENUM"""
-    return isinstance(desc, dict) and "u" in desc and len(desc["u"]) == 2 and desc["u"][0] == "none" and isinstance(desc["u"][1], dict) and "e" in desc["u"][1]
 
 
 def get_parser(desc):
@@ -552,7 +546,7 @@ LOOKALIKE = ["null", "Null", "~", "true", "false", "True", "yes", "no", "on", "o
              "{1: 2}", "a: 1", "- 1", "-", "---", "", " ", "  2 ", " null ", "\"1\"", "'1'", "\"null\"", "[1", "{", "a: b: c", "!!set {a}", "red", "x1",
              "abc", "None", "2024-01-01", "1:30", "[[1]]", "[[1, 2], [3]]", "[true]", "[\"1\"]", "{\"a\": [1]}", "{\"1\": 2}", "{\"a\": null}", "? a",
              "|", ">", "@x", "`x`", "%x", "[1,2]]", "1 2", "1,2", "(1, 2)", "null # c", "1 # c", "é", "\t1", "1\n"]
-INT_POOL = [0, 1, -1, 2, 3, 7, 42, -3, 10 ** 16, 2 ** 53 + 1, -(10 ** 17), 123456789]
+INT_POOL = [0, 1, -1, 2, 3, 7, 42, -3, 10 ** 16, 2 ** 53 + 1, -(10 ** 17), 123456789, 10 ** 310, -(10 ** 309)]
 FLT_POOL = [0.5, -1.5, 2.0, 1e22, 1e-7, 0.0, -0.0, 3.25, 1e16, 123456.789, float("inf"), float("-inf")]
 LIT_STR = ["a", "b", "null", "1", "true", "red", ""]
 LIT_INT = [0, 1, 2, -1, 7]
@@ -1025,9 +1019,6 @@ def check_case_oracles(ctx: Ctx, run: Run, desc, channel, inp, origin, conf_in, 
 def check_perm(ctx: Ctx, run: Run, desc, variants, channel, inp, origin, obs):
     for d2 in variants:
         o2 = run.obs(d2, channel, inp)
-        if "err" in o2 and o2["err"].startswith("declare:") and is_none_enum_union(d2) and ctx.is_open(FINDING_OPTENUM):
-            ctx.known(FINDING_OPTENUM, "add_argument(type=Union[None, Enum]) raises %s while Optional[Enum] is fine" % o2["err"][8:])
-            continue
         if accepted(o2) != accepted(obs):
             if set_elem_may_be_unhashable(desc) and ctx.is_open(FINDING_SETELEM):
                 ctx.known(FINDING_SETELEM, "acceptance by a Set depends on which Union member converts the element: %s given %s" % (jdump(desc)[:80], jdump(inp)[:60]))
@@ -1123,10 +1114,7 @@ def correspond_and_judge(ctx: Ctx, run: Run, cases, variants, label):
             skipped += 1
             continue
         if "err" in obs and obs["err"].startswith("declare:"):
-            if is_none_enum_union(desc) and ctx.is_open(FINDING_OPTENUM):
-                ctx.known(FINDING_OPTENUM, "add_argument(type=Union[None, Enum]) raises %s" % obs["err"][8:])
-            else:
-                ctx.violation("a type hint of the grammar cannot be declared", {"kind": "declare", "desc": desc, "real": obs})
+            ctx.violation("a type hint of the grammar cannot be declared", {"kind": "declare", "desc": desc, "real": obs})
             continue
         items.append(item)
         metas.append(("case", desc, ch, inp, origin, obs))
@@ -1185,7 +1173,8 @@ def run(ctx: Ctx):
                 "the Lean validator, and repeated under every permutation of every Union; non-trivial = accepted by the real parser; distinct by "
                 "canonical JSON of (type, channel, input)")
     ctx.assumptions = [
-        "one optional argument without nargs/default/enable_path; parser_mode yaml; values inside the wire grammar (str/int dict keys, |int| < 10^300)",
+        "one optional argument without nargs/default/enable_path; parser_mode yaml; values inside the wire grammar (str/int dict keys, |int| < 10^400)",
+        "float(i) for an int beyond the float range: the oracle answers 'overflow' and the model rejects (ValueError, commit 31f099f)",
         "PyYAML + yaml_load/load_value, int(str) for dict keys and repr(float(int)) for |int| >= 10^16 are oracles of the model (supplied per case)",
         "dict keys contain no '.', values contain no 'class_path' key and no '__path__' key",
         "two NaN objects in one set, and float keys, are outside the model",
